@@ -100,3 +100,12 @@ Proof. exact kernel_twin_closed. Qed.
 Theorem C02_candidate_fk : forall (p : Params), sg_ok6 p -> forall t1 t2 t3 t4 t5 t6,
   fwd p (j6_of (cand p t1 t2 t3 t4 t5 t6)) = L6 p (mkJ6 t1 t2 t3 t4 t5 t6).
 Proof. exact fwd_cand. Qed.
+
+(** ** no duplicates: two different rows of the (generated) table never describe the same configuration modulo whole turns,
+    as long as the wrist centre is off the J1 axis line and the computed elbow and wrist angles of the two rows are not 0 or PI *)
+From VF Require Import Proofs.DistinctP.
+Theorem C02_rows_distinct : forall (p : Params) (pose : Iso),
+  0 < f_NX (vx (tr pose) - p_c4 p * m02 (rot pose)) (vy (tr pose) - p_c4 p * m12 (rot pose)) (p_a1 p) (p_b p) + p_a1 p ->
+  forall b d f b' d' f', row_regular p pose b d -> row_regular p pose b' d' ->
+  (b, d, f) <> (b', d', f') -> ~ Forall2 rep2 (row p pose b d f) (row p pose b' d' f').
+Proof. exact rows_distinct. Qed.
